@@ -27,12 +27,68 @@ def model_taste(model, img_sx, limit, opts):
     return bool(r)
 
 
-def model_taste_all(model, img_sx, limit):
-    """verdicts indexed by k = headers + 2*shape + 4*data"""
+def model_taste_all(model, img_sx, limit, close=()):
+    """verdicts indexed by k = headers + 2*shape + 4*data; [close] = the
+    (token, word) pairs np.isclose accepts (oracle of the binary-data check)"""
     from harness.sx import opt
-    st, r = model.call('taste_all', [opt(limit), img_sx])
+    st, r = model.call('taste_all', [opt(limit), img_sx, [[t, w] for t, w in close]])
     assert st == 'ok'
     return [bool(x) for x in r]
+
+
+def close_table(img):
+    """Oracle of the model's binary-data check: every pair (table token, word)
+    with np.isclose(float(token), value of word), for the tokens of each level
+    header's min/max tables and the NaN-ignoring extrema of every component of
+    every FAB (lenient scan) of the same level.  Computed by numpy, per level."""
+    import struct
+    import warnings
+    pairs = set()
+    for name, d in img['dirs'].items():
+        if d['cellh'] is None:
+            continue
+        toks = set()
+        seen_fod = False
+        for line in d['cellh']:
+            if line and line[0] == b'FabOnDisk:':
+                seen_fod = True
+                continue
+            if seen_fod:
+                for t in b' '.join(line).split(b','):
+                    t = t.strip()
+                    if t:
+                        toks.add(t)
+        vals = {}
+        for t in toks:
+            try:
+                vals[t] = float(t)
+            except ValueError:
+                pass
+        words = set()
+        for content in d['files'].values():
+            for lo, hi, nc, data in lenient_fabs(content):
+                cells = int(np.prod([h - l + 1 for l, h in zip(lo, hi)]))
+                if cells <= 0 or len(data) < 8 * cells * nc:
+                    continue
+                a = np.frombuffer(data, dtype='<f8', count=cells * nc).reshape((cells, nc), order='F')
+                with warnings.catch_warnings():
+                    warnings.simplefilter('ignore')
+                    for c in range(nc):
+                        col = a[:, c]
+                        if np.all(np.isnan(col)):
+                            continue
+                        for v in (np.nanmin(col), np.nanmax(col)):
+                            words.add(struct.pack('<d', float(v)))
+                            if v == 0:
+                                words.add(struct.pack('<d', 0.0))
+                                words.add(struct.pack('<d', -0.0))
+        for t, x in vals.items():
+            for w in words:
+                with warnings.catch_warnings():
+                    warnings.simplefilter('ignore')
+                    if bool(np.isclose(x, struct.unpack('<d', w)[0])):
+                        pairs.add((t, w))
+    return sorted(pairs)
 
 
 LENIENT = re.compile(rb'\(\((-?\d+(?:,-?\d+)*)\)\s+\((-?\d+(?:,-?\d+)*)\)\s+\((-?\d+(?:,-?\d+)*)\)\)\s+(\d+)\s*\n$')
